@@ -141,6 +141,15 @@ class OutFile(T):
     kind = "OutFile"
 
 
+class NpVec(T):
+    """numpy 1-d float array of n symbolic reals."""
+
+    kind = "NpVec"
+
+    def __init__(self, n=3):
+        self.n = n
+
+
 def Vec3():
     return ListOf(Real, 3)
 
@@ -176,7 +185,11 @@ class Contract:
         assume_post=(),
         forbid_reads=(),
         thorough_only=False,
+        ghost_returns=None,
+        ghost_witness=None,
     ):
+        self.ghost_returns = dict(ghost_returns or {})
+        self.ghost_witness = dict(ghost_witness or {})
         self.forbid_reads = list(forbid_reads)
         self.thorough_only = thorough_only
         self.target = target  # "pdb2pqr.cells:Cells.add_cell" or None for a harness
@@ -270,7 +283,14 @@ def isint(x):
     return float(x).is_integer()
 
 
+def sqrt(x):
+    import math
+
+    return math.sqrt(x)
+
+
 NATIVE_HELPERS = {
+    "sqrt": sqrt,
     "isint": isint,
     "implies": implies,
     "iff": iff,
